@@ -100,6 +100,32 @@ func (a *Agg) add(u *unitMsg, variant string) {
 	}
 }
 
+// merge folds the aggregate of a further variant into a.
+func (a *Agg) merge(b *Agg, variant string) {
+	a.Evals += b.Evals
+	a.Steps += b.Steps
+	a.Counters["units_run_"+variant] += int64(b.Units)
+	for k, v := range b.Counters {
+		if strings.HasPrefix(k, "max_") {
+			if v > a.Counters[k] {
+				a.Counters[k] = v
+			}
+		} else {
+			a.Counters[variant+"_"+k] += v
+		}
+	}
+	for name, m := range b.Distinct {
+		if a.Distinct[name] == nil {
+			a.Distinct[name] = map[uint64]struct{}{}
+		}
+		for h := range m {
+			a.Distinct[name][h] = struct{}{}
+		}
+	}
+	a.Fails = append(a.Fails, b.Fails...)
+	a.Troubles = append(a.Troubles, b.Troubles...)
+}
+
 // DistinctCount returns the number of distinct hashes recorded under a measure.
 func (a *Agg) DistinctCount(name string) int { return len(a.Distinct[name]) }
 
